@@ -1,1 +1,194 @@
-fn main(){}
+//! Generates the Builder call table from the *current* /repo sources: parses the
+//! signature of every `pub fn` in rspirv/dr/build/{mod,autogen_*}.rs and emits
+//! `glue.rs` (method table + one dispatch function).  Regenerated whenever those
+//! files change.  A method whose parameter types the glue does not know is
+//! listed with `callable: false` and counted in the evidence as unmapped.
+
+use std::fmt::Write as _;
+use std::path::Path;
+
+const FILES: &[&str] = &[
+    "mod.rs",
+    "autogen_type.rs",
+    "autogen_constant.rs",
+    "autogen_annotation.rs",
+    "autogen_terminator.rs",
+    "autogen_debug.rs",
+    "autogen_norm_insts.rs",
+];
+
+struct Method {
+    file: String,
+    name: String,
+    receiver: String,
+    params: Vec<(String, String)>,
+    ret: String,
+}
+
+fn norm_ws(s: &str) -> String {
+    s.split_whitespace().collect::<Vec<_>>().join(" ")
+}
+
+fn split_top(s: &str) -> Vec<String> {
+    let mut parts = vec![];
+    let mut depth = 0i32;
+    let mut cur = String::new();
+    for ch in s.chars() {
+        match ch {
+            '<' | '(' | '[' => depth += 1,
+            '>' | ')' | ']' => depth -= 1,
+            _ => {}
+        }
+        if ch == ',' && depth == 0 {
+            parts.push(cur.trim().to_string());
+            cur.clear();
+        } else {
+            cur.push(ch);
+        }
+    }
+    if !cur.trim().is_empty() {
+        parts.push(cur.trim().to_string());
+    }
+    parts
+}
+
+fn parse_file(file: &str, src: &str, out: &mut Vec<Method>) {
+    let src = match src.find("#[cfg(test)]") {
+        Some(i) => &src[..i],
+        None => src,
+    };
+    let bytes = src.as_bytes();
+    let mut pos = 0;
+    while let Some(i) = src[pos..].find("pub fn ") {
+        let start = pos + i + "pub fn ".len();
+        let mut j = start;
+        while j < bytes.len() && (bytes[j].is_ascii_alphanumeric() || bytes[j] == b'_') {
+            j += 1;
+        }
+        let name = src[start..j].to_string();
+        // skip generics
+        let mut k = j;
+        while bytes[k] != b'(' {
+            k += 1;
+        }
+        // matching paren
+        let mut depth = 0i32;
+        let mut e = k;
+        loop {
+            match bytes[e] {
+                b'(' => depth += 1,
+                b')' => {
+                    depth -= 1;
+                    if depth == 0 {
+                        break;
+                    }
+                }
+                _ => {}
+            }
+            e += 1;
+        }
+        let params_src = norm_ws(&src[k + 1..e]);
+        let brace = e + src[e..].find('{').unwrap();
+        let ret_src = norm_ws(&src[e + 1..brace]);
+        let ret = ret_src.strip_prefix("->").map(|s| s.trim().to_string()).unwrap_or_else(|| "()".to_string());
+        let mut receiver = String::new();
+        let mut params = vec![];
+        for p in split_top(&params_src) {
+            if p == "&mut self" || p == "&self" || p == "self" {
+                receiver = p;
+                continue;
+            }
+            if let Some((n, t)) = p.split_once(':') {
+                params.push((n.trim().to_string(), t.trim().to_string()));
+            }
+        }
+        out.push(Method {
+            file: file.to_string(),
+            name,
+            receiver,
+            params,
+            ret,
+        });
+        pos = brace;
+    }
+}
+
+fn arg_expr(name: &str, ty: &str) -> Option<String> {
+    Some(match ty {
+        "spirv::Word" => format!("a.word(\"{}\")", name),
+        "u32" => format!("a.u32(\"{}\")", name),
+        "u64" => format!("a.u64(\"{}\")", name),
+        "Option<spirv::Word>" => format!("a.opt_word(\"{}\")", name),
+        "InsertPoint" => "a.insert_point()".to_string(),
+        "impl IntoIterator<Item = dr::Operand>" => format!("a.operands(\"{}\")", name),
+        "impl IntoIterator<Item = spirv::Word>" | "impl IntoIterator<Item = u32>" | "impl AsRef<[u32]>" | "impl AsRef<[spirv::Word]>" => format!("a.words(\"{}\")", name),
+        "impl Into<String>" => format!("a.string(\"{}\")", name),
+        "Option<impl Into<String>>" => format!("a.opt_string(\"{}\")", name),
+        "impl IntoIterator<Item = (dr::Operand, spirv::Word)>" => format!("a.pairs_lit_id(\"{}\")", name),
+        "impl IntoIterator<Item = (spirv::Word, spirv::Word)>" => format!("a.pairs_id_id(\"{}\")", name),
+        "impl IntoIterator<Item = (spirv::Word, u32)>" => format!("a.pairs_id_lit(\"{}\")", name),
+        t if t.starts_with("Option<spirv::") && t.ends_with('>') => {
+            let inner = &t["Option<".len()..t.len() - 1];
+            format!("a.opt_en::<{}>(\"{}\")", inner, name)
+        }
+        t if t.starts_with("spirv::") => format!("a.en::<{}>(\"{}\")", t, name),
+        _ => return None,
+    })
+}
+
+fn ret_expr(ret: &str, call: &str) -> Option<String> {
+    Some(match ret {
+        "BuildResult<spirv::Word>" => format!("Ret::ResId({}.map_err(|e| err_name(&e)))", call),
+        "BuildResult<()>" => format!("Ret::ResUnit({}.map_err(|e| err_name(&e)))", call),
+        "spirv::Word" => format!("Ret::Id({})", call),
+        "()" => format!("{{ {}; Ret::Unit }}", call),
+        _ => return None,
+    })
+}
+
+fn main() {
+    let dir = Path::new("/repo/rspirv/dr/build");
+    let mut methods = vec![];
+    for f in FILES {
+        let p = dir.join(f);
+        println!("cargo:rerun-if-changed={}", p.display());
+        let src = std::fs::read_to_string(&p).unwrap_or_else(|e| panic!("read {}: {}", p.display(), e));
+        parse_file(f, &src, &mut methods);
+    }
+    println!("cargo:rerun-if-changed=build.rs");
+    let mut table = String::new();
+    let mut arms = String::new();
+    for (idx, m) in methods.iter().enumerate() {
+        let mut callable = m.receiver == "&mut self";
+        let mut args = vec![];
+        for (n, t) in &m.params {
+            match arg_expr(n, t) {
+                Some(e) => args.push(e),
+                None => callable = false,
+            }
+        }
+        let lets: String = args.iter().enumerate().map(|(i, e)| format!("let p{} = {}; ", i, e)).collect();
+        let call = format!("b.{}({})", m.name, (0..args.len()).map(|i| format!("p{}", i)).collect::<Vec<_>>().join(", "));
+        let body = if callable { ret_expr(&m.ret, &call) } else { None };
+        let callable = body.is_some();
+        let params_lit: String = m.params.iter().map(|(n, t)| format!("(\"{}\", \"{}\"), ", n, t)).collect();
+        writeln!(
+            table,
+            "    MethodInfo {{ name: \"{}\", file: \"{}\", params: &[{}], ret: \"{}\", callable: {} }},",
+            m.name, m.file, params_lit, m.ret, callable
+        )
+        .unwrap();
+        if let Some(body) = body {
+            writeln!(arms, "        {} => {{ {}{} }}", idx, lets, body).unwrap();
+        }
+    }
+    let code = format!(
+        "// generated by build.rs from /repo/rspirv/dr/build/*.rs — do not edit\n\
+         pub static METHODS: &[MethodInfo] = &[\n{}];\n\n\
+         #[allow(clippy::all, unused_variables)]\n\
+         pub fn call_method(b: &mut Builder, idx: usize, a: &mut ArgSrc) -> Ret {{\n    match idx {{\n{}        _ => Ret::NotCallable,\n    }}\n}}\n",
+        table, arms
+    );
+    let out = std::env::var("OUT_DIR").unwrap();
+    std::fs::write(Path::new(&out).join("glue.rs"), code).unwrap();
+}
